@@ -8,7 +8,7 @@ class NotLoopFree(Exception):
     pass
 
 
-def enumerate_paths(body, limit=4000):
+def enumerate_paths(body, limit=4000, loop_exits=None):
     """yield (decisions, ret_def, asserts) for every entry→return path;
     decisions = [(bb, discr_expr, value)] where value is the arm value or ('not', [values]) for otherwise;
     asserts = [(bb, cond_expr, expected)] passed on the way (dev-profile overflow checks)"""
@@ -35,6 +35,10 @@ def enumerate_paths(body, limit=4000):
             raise NotLoopFree("cycle through bb%d" % bb)
         seen = seen | {bb}
         blk = body.blocks[bb]
+        if loop_exits and bb in loop_exits:
+            # a loop summarised by the caller: continue at its exit block (the caller applies the summary at `bb`)
+            rec(loop_exits[bb], seen, decisions, last_def, asserts, known, order)
+            return
         for si, s in enumerate(blk["stmts"]):
             if s["k"] == "assign" and s["dst"]["l"] == 0 and not s["dst"]["p"]:
                 last_def = (bb, si)
